@@ -265,6 +265,10 @@ class Fit(Contract):
         return out
     loops = {0: _inv.__func__}
 
+    def at_cut(self, E, a, old):
+        # also where a path ends inside the loop: the first iteration starts with W = the caller's sample_weight
+        return {"training_data_and_sample_weight_not_written": z3.BoolVal(all(a[k].cell.writes == w for k, w in old["writes"].items()))}
+
     def ensures(self, E, a, res, old):
         s = a.self
         f = s.fields
